@@ -1,16 +1,16 @@
 SPECIFICATION SpecSim
 CONSTANTS
-  Metas <- MetasSim
+  Metas <- MetasGen
   DHosts <- DH2
-  Vals <- ValsDeep
+  Vals <- ValsExh
   E = 2
-  NEpochs = 3
+  NEpochs = 2
   MockModes <- Both
   H6 = 2
   Gaps <- GapsMock
   Horizon = 12
   MaxCalls = 9999
-  HHMetas <- MetasSim
-  HHVals <- ValsDeep
+  HHMetas <- MetasHH
+  HHVals <- ValsExh
   GenLen = 20
 INVARIANTS EmitSim
